@@ -14,6 +14,7 @@ EXPLANATION = (
     ' (R7) is_code_fence_close rejects exactly the lines with another marker or a SHORTER run than the opening fence, decided over the finite (marker, length) table.'
     ' (R4, tightened) the active-set key derives from canonicalize(path) (two spellings of one file must be one key).'
     ' (R8) the token expander examines every line of its chunk: no Ok exit before or inside the line loop, the result is the accumulator the loop fills, and the per-line test is standalone_braced_content.'
+    ' (R9) fence typestate: a line that opens a fence sets the fence state unconditionally, the state is cleared only under is_code_fence_close, both fence branches end in `continue`, and nothing else writes the state.'
 )
 
 HS = r"std::collections::hash::set::HashSet::<T, S, A>::"
@@ -280,6 +281,7 @@ def check_guarded(F, rep, R, cg, bodies):
                       "%s:%d" % (b.file, t["l"]))
     run_r7(F, rep, rep.tier)
     run_r8(F, rep)
+    run_r9(F, rep)
 
 
 def run_r7(F, rep, tier="quick"):
@@ -371,3 +373,46 @@ def run_r8(F, rep):
     per_line = [c for c in find(loop[3], "call") if (path_of(c[1]) or "").endswith("standalone_braced_content")]
     rep.check(len(per_line) == 1, "C20-R8", "per-line-test:standalone_braced_content", "the line loop does not apply standalone_braced_content to each line (%d calls)" % len(per_line),
               "expand_mechdown_include_tokens (mech)")
+
+
+def run_r9(F, rep):
+    """C20-R9: fence typestate of the include expander"""
+    from lib.facts import find, walk, is_node, path_of, render, render_pat
+    rep.rule("C20-R9", "fence typestate: in expand_mechdown_includes_recursive every line that opens a fence sets the fence state unconditionally (the assignment sits at the top level of the "
+                       "`if let Some(..) = code_fence_delimiter(line)` branch, not under the flush of the pending text), the state is cleared only under is_code_fence_close, and both "
+                       "branches end in `continue` - an opener that is not recorded has its fenced include lines expanded and its closing line read as an opener")
+    fns = [it for c in ("mech.lib", "mech.bin") for it in F.syn(c) if it["k"] == "fn" and it["name"] == "expand_mechdown_includes_recursive"]
+    if not rep.check(len(fns) >= 1, "C20-R9", "anchor:expand_mechdown_includes_recursive", "expand_mechdown_includes_recursive not found"):
+        return
+    it = fns[0]
+    loops = [f for f in find(it["body"], "for") if re.search(r"split_inclusive|lines\(", render(f[2]))]
+    if not rep.check(len(loops) == 1, "C20-R9", "anchor:line-loop", "the line loop was not found (%d)" % len(loops)):
+        return
+    body = loops[0][3]
+    opener = closer = None
+    for st in body:
+        e = st[1] if st[0] == "expr" else None
+        if is_node(e) and e[0] == "if" and is_node(e[1]) and e[1][0] == "letc":
+            if any((path_of(c[1]) or "").endswith("code_fence_delimiter") for c in find(e[1][2], "call")):
+                opener = e
+            elif is_node(e[1][2]) and e[1][2][0] == "path":
+                closer = (e, e[1][2][1])
+    if not rep.check(opener is not None and closer is not None, "C20-R9", "anchor:fence-branches", "the fenced-line branch and the opener branch were not both found at the top level of the line loop"):
+        return
+    state = closer[1]
+    top_sets = [s_ for s_ in opener[2] if s_[0] == "expr" and is_node(s_[1]) and s_[1][0] == "assign" and render(s_[1][1]) == state and render(s_[1][2]).startswith("Some(")]
+    nested_sets = [a for a in find(opener[2], "assign") if render(a[1]) == state and render(a[2]).startswith("Some(")]
+    ok = len(top_sets) == 1 and len(nested_sets) == 1
+    rep.check(ok, "C20-R9", "opener-sets-state-unconditionally" if ok else "opener-state-%s" % ("conditional" if nested_sets else "never-set"),
+              "a line that opens a fence records `%s = Some(..)` %s: a fence that opens with no pending outside text (first line of a file, two fences back to back) is not entered" % (
+                  state, "only under another condition" if nested_sets else "nowhere"), "expand_mechdown_includes_recursive (mech)")
+    ends = lambda stmts: bool(stmts) and stmts[-1][0] == "expr" and is_node(stmts[-1][1]) and stmts[-1][1][0] == "continue"
+    rep.check(ends(opener[2]) and ends(closer[0][2]), "C20-R9", "fence-branches-continue", "a fence branch falls through to the outside-text handling", "expand_mechdown_includes_recursive (mech)")
+    clears = [a for a in find(closer[0][2], "assign") if render(a[1]) == state and render(a[2]) == "None"]
+    guarded = False
+    for x in find(closer[0][2], "if"):
+        if any((path_of(c[1]) or "").endswith("is_code_fence_close") for c in find(x[1], "call")) and any(a in list(find(x[2], "assign")) for a in clears):
+            guarded = True
+    rep.check(len(clears) == 1 and guarded, "C20-R9", "state-cleared-only-on-close", "the fence state is cleared %d time(s) / not under is_code_fence_close" % len(clears), "expand_mechdown_includes_recursive (mech)")
+    other = [a for a in find(it["body"], "assign") if render(a[1]) == state and a not in nested_sets and a not in clears]
+    rep.check(not other, "C20-R9", "no-other-state-writes", "the fence state is also written at %s" % [render(a)[:40] for a in other], "expand_mechdown_includes_recursive (mech)")
